@@ -163,6 +163,9 @@ class Root:
         return "%s:%s" % (self.kind, self.desc)
 
 
+STD_DISPATCH = {"From", "TryFrom", "FromStr", "Display", "Default", "Clone", "PartialEq", "PartialOrd", "Ord", "Hash", "AsRef", "AsMut",
+                "Deref", "DerefMut", "FromIterator", "Extend", "IntoIterator", "Iterator", "Borrow", "ToOwned", "Error"}
+
 TRANSPARENT = ("Deref::deref", "DerefMut::deref_mut", "Pin::as_mut", "Pin::get_mut", "Pin::as_ref", "Pin::get_ref",
                "Pin::get_unchecked_mut", "Pin::into_ref", "Pin::new", "Pin::new_unchecked", "Pin::into_inner",
                "Pin::set", "AsMut::as_mut", "AsRef::as_ref", "Borrow::borrow", "BorrowMut::borrow_mut")
@@ -702,6 +705,9 @@ class Fn:
                     roots.add(Root("unknown", "resume-arg"))
                     continue
                 s = d[3]
+                if 1 <= l <= self.argc and s["p"]["p"] and s["p"]["p"][0] == "*":
+                    # a write through a reference parameter updates the pointee; the parameter itself is the root
+                    continue
                 tgt_fields = self._fields(s["p"])
                 # assignment to a sub-place only matters if it overlaps the requested fields
                 if tgt_fields and fields and not self._overlap(tgt_fields, fields):
@@ -800,6 +806,7 @@ class Facts:
         self.traits = {t["path"]: t for t in data["traits"]}
         self._callers = None
         self._cg = None
+        self.drop_impls = []
         # trait item -> impl fn keys (for CHA)
         self.trait_impls = defaultdict(list)
         for im in self.impls:
@@ -809,6 +816,8 @@ class Facts:
             for it in im["items"]:
                 if it["kind"].startswith("Fn"):
                     self.trait_impls[(norm(tr), it["name"])].append(it["key"])
+                    if tr.split("::")[-1] in ("Drop", "PinnedDrop") and im.get("self_adt"):
+                        self.drop_impls.append((im["self_adt"], it["key"]))
 
     def fn(self, nkey, required=True):
         """Function by generics-stripped key (exact) or unique `::`-suffix."""
@@ -894,12 +903,63 @@ class Facts:
                     cg[k].add(c.res)
                 elif c.decl and cha != "none":
                     m = re.match(r"^(.*)::([A-Za-z_0-9]+)$", norm(c.decl))
-                    if m and (cha == "all" or m.group(1) in self.traits):
+                    if m and (cha == "all" or m.group(1) in self.traits or m.group(1).split("::")[-1] in STD_DISPATCH):
                         for ik in self.trait_impls.get((m.group(1), m.group(2)), []):
                             if ik in self.fns:
                                 cg[k].add(ik)
                     if c.res and c.res in self.fns:
                         cg[k].add(c.res)
+                # std generic adaptors that call back into local impls: Into -> From, TryInto -> TryFrom,
+                # ToString -> Display, str::parse -> FromStr
+                if c.decl and cha != "none":
+                    nd = norm(c.decl)
+                    back = None
+                    if nd.endswith("convert::Into::into"):
+                        back = ("From", "from", 1)
+                    elif nd.endswith("convert::TryInto::try_into"):
+                        back = ("TryFrom", "try_from", 1)
+                    elif nd.endswith("string::ToString::to_string"):
+                        back = ("Display", "fmt", 0)
+                    elif nd.endswith("str::parse") or nd.endswith("<impl str>::parse"):
+                        back = ("FromStr", "from_str", 0)
+                    if back is not None:
+                        targs = c.t.get("targs") or []
+                        want = norm(targs[back[2]]) if len(targs) > back[2] else None
+                        for (tr, meth), iks in self.trait_impls.items():
+                            if tr.split("::")[-1] != back[0] or meth != back[1]:
+                                continue
+                            for ik in iks:
+                                g = self.fns.get(ik)
+                                if g is None:
+                                    continue
+                                st = norm(g.d.get("impl_self", ""))
+                                generic = want is None or re.fullmatch(r"[A-Z][A-Za-z0-9]*", want) or want.startswith("<")
+                                if generic or st == want or st.lstrip("&") == want.lstrip("&"):
+                                    cg[k].add(ik)
+            # function items used as values (fn pointers, e.g. PreprocessService::new(svc, check_http1_request))
+            for b in f.live:
+                for st in f.stmts(b):
+                    if st["k"] != "assign":
+                        continue
+                    r = st["r"]
+                    ops = [r.get("o")] if r.get("o") else (r.get("ops") or [])
+                    for o in ops:
+                        kk = o.get("k") if o else None
+                        if kk and kk.get("fn") in self.fns:
+                            cg[k].add(kk["fn"])
+                t = f.term(b)
+                if t["k"] == "call":
+                    for a in t["args"]:
+                        kk = a.get("k")
+                        if kk and kk.get("fn") in self.fns:
+                            cg[k].add(kk["fn"])
+            # drop glue of local types with a Drop impl
+            for b in f.live:
+                t = f.term(b)
+                if t["k"] == "drop":
+                    for (adt, dk) in self.drop_impls:
+                        if adt in norm(t["pty"]):
+                            cg[k].add(dk)
             for (_, _, _, ck) in f.closures_created():
                 if ck in self.fns:
                     cg[k].add(ck)
@@ -1310,3 +1370,44 @@ class AbsPaths:
                                 continue
                 stack.append((s2, tuple(sorted(st.items()))))
         return reached, n
+
+
+def split_type_args(s):
+    """Top-level generic arguments of a type string `Head<A, B<C, D>, E>` -> ('Head', ['A', 'B<C, D>', 'E'])."""
+    i = s.find("<")
+    if i < 0 or not s.endswith(">"):
+        return s, []
+    head = s[:i]
+    body = s[i + 1:-1]
+    args = []
+    depth = 0
+    cur = []
+    j = 0
+    while j < len(body):
+        c = body[j]
+        if c in "<([":
+            depth += 1
+        elif c in ">)]" and not (c == ">" and j > 0 and body[j - 1] == "-"):
+            depth -= 1
+        if c == "," and depth == 0:
+            args.append("".join(cur).strip())
+            cur = []
+        else:
+            cur.append(c)
+        j += 1
+    if cur:
+        args.append("".join(cur).strip())
+    return head, args
+
+
+def layer_stack(ty):
+    """tower encodes the order of ServiceBuilder layers as nested Stack<Inner, Outer>: innermost first."""
+    ty = ty.lstrip("&").strip()
+    if ty.startswith("mut "):
+        ty = ty[4:]
+    head, args = split_type_args(ty)
+    if head.endswith("ServiceBuilder") and args:
+        return layer_stack(args[0])
+    if head.endswith("layer::util::Stack") and len(args) == 2:
+        return [args[0]] + layer_stack(args[1])
+    return [ty]
